@@ -18,7 +18,7 @@ CHECKS = {
     "C03": dict(
         category="exploration",
         technique="runtime monitoring: pause-point controller forcing chosen preemptions inside begin_read/commit/abort/drop calls, jittered multi-thread stress, and a sequence-number history oracle (two tables written together by every commit) plus the ownership accountant",
-        text="For every call kind (durable 1PC/2PC/quick-repair and non-durable commit, abort, writer drop, begin_read, begin_write, savepoint create+drop inside a writer, Savepoint drop, Database drop with and without a live writer) a dry run lists the named pause points it passes; for every (call, point) x intruder call (full read, two begin_reads, drop of an older reader, drop of a savepoint, begin_write+commit, Database drop) x 4 database states the victim is parked at the point, the intruder's whole call runs on another thread, the victim resumes. Judged: a reader sees exactly one requested commit number in every key of both tables; a second writer never runs while one is live; commit numbers read inside transactions are consecutive; final state = last acknowledged commit (also after reopening when the Database was dropped); page accounting balances; no deadlock. Stress: 2-5 writers, 2-6 readers, savepoint dropper, jitter at all 31 points; per-reader monotonic, never older than an acknowledged commit, never an aborted value. Only the schedules forced or happened upon are covered.",
+        text="For every call kind (durable 1PC/2PC/quick-repair and non-durable commit, abort, writer drop, begin_read, begin_write, savepoint create+drop inside a writer, Savepoint drop, Database drop with and without a live writer) a dry run lists the named pause points it passes; for every (call, point) x intruder call (full read, two begin_reads, drop of an older reader, drop of a savepoint, begin_write+commit, Database drop) x 4 database states the victim is parked at the point, the intruder's whole call runs on another thread, the victim resumes. Judged: a reader sees exactly one requested commit number in every key of both tables; a second writer never runs while one is live; commit numbers read inside transactions are consecutive; final state = last acknowledged commit (also after reopening when the Database was dropped); page accounting balances; no deadlock. Late-root scenarios: a reader parked before/after registering, one commit of kind X, the reader keeps its snapshot, three commits of kind Y, the reader reads again (X,Y over durable/non-durable/2PC/quick-repair). Stress: 2-5 writers, 2-6 readers, 3 lock-churn threads, savepoint dropper, jitter at all 32 points; per-reader monotonic, never older than an acknowledged commit, never an aborted value. Only the schedules forced or happened upon are covered.",
         note="Trusted: the sequence-number oracle; OS scheduling between pause points is not controlled; blocked/ran is decided after 150 ms. Preemptions inside B-tree code are only those the OS produces.",
         design="5/C03",
     ),
@@ -68,7 +68,7 @@ CHECKS = {
     "C08": dict(
         category="fault_enumeration",
         technique="runtime monitoring: fault-injecting storage backend (k-th call fails), reference-model oracle on every API result, then crash-image oracle on the storage left behind",
-        text="Each history is run fault-free to count backend calls, then re-run with the k-th call of a chosen kind failing once or permanently (k sampled in quick, every k for part of the histories in thorough). Panics, wrong results, writes accepted after a reported I/O error and reads that are neither an error nor a committed state are violations; the dropped database's storage is reopened as left and under crash subsets of its unsynced tail and must equal one admissible commit point, pass check_integrity and decode under the independent decoder.",
+        text="Each history is run fault-free to count backend calls, then re-run with the k-th call of a chosen kind failing once or permanently (k sampled in quick, every k for part of the histories in thorough); queued-writer scenarios inject the failure into one writer's commit while another thread waits in begin_write() and must be refused. Panics, wrong results, writes accepted after a reported I/O error and reads that are neither an error nor a committed state are violations; the dropped database's storage is reopened as left and under crash subsets of its unsynced tail and must equal one admissible commit point, pass check_integrity and decode under the independent decoder.",
         note="Trusted: a failing call leaves the storage untouched; the reference model; the crash model of C01 for the unsynced tail. k is sampled except for the exhaustive histories of the thorough tier.",
         design="5/C08",
     ),
